@@ -368,6 +368,18 @@ var kSamWrite = register(&Kind{Name: "sam_write",
 	Project: func(out Val) Val { return L(joinChunks(out.At(0)), out.At(1)) },
 	Impl: func(in Val) Val {
 		s := samFromVal(in.At(0))
+		poison := &sam.SAM{Qname: "poison", Rname: "chrP", Cigar: "*", Rnext: "*", Seq: "NNNN", Qual: "!!!!", Tags: map[string]any{"PZ": "poison"}}
+		poisonWriters(func(w io.Writer) error { return poison.Write(w) })
+		func() { // a tag of an unsupported type makes the writers panic
+			defer func() { recover() }()
+			bad := &sam.SAM{Qname: "bad", Rname: "chrX", Cigar: "*", Rnext: "*", Seq: "N", Qual: "*", Tags: map[string]any{"ZZ": struct{}{}, "AA": "first"}}
+			bad.MarshalText()
+		}()
+		func() {
+			defer func() { recover() }()
+			bad := &sam.SAM{Qname: "bad", Rname: "chrX", Cigar: "*", Rnext: "*", Seq: "N", Qual: "*", Tags: map[string]any{"ZZ": []int{1}}}
+			bad.Write(&chunkRecorder{})
+		}()
 		w := &chunkRecorder{}
 		if err := s.Write(w); err != nil {
 			return L(I(3), S("Write to a good writer failed"))
